@@ -58,7 +58,7 @@ def match_known(known, v):
     for e in known:
         if e.get('status') != 'open':
             continue
-        if e['component'] == v['component'] and e['symptom'] == v['symptom'] and (e.get('trigger', 'any') == 'any' or fnmatch.fnmatchcase(str(v.get('trigger')), e['trigger'])):
+        if e['component'] == v['component'] and fnmatch.fnmatchcase(str(v['symptom']), e['symptom']) and (e.get('trigger', 'any') == 'any' or fnmatch.fnmatchcase(str(v.get('trigger')), e['trigger'])):
             return e
     return None
 
